@@ -1,35 +1,49 @@
 """
-C16 translator: the positional slot tables of every card class `__init__` in shelxfile/shelx/cards.py, and the
-DEFS rules of `Restraint._set_defs_values`, read off the AST and written as Lean tables
+C16 translator: the positional slot tables of every card class of shelxfile/shelx/cards.py and the DEFS rules of the
+restraints, written as Lean tables
 
     Shelx.Extracted.slotTable : List Shelx.C16.CardSlots
     Shelx.Extracted.defsTable : List Shelx.C16.DefsRule
-    Shelx.Extracted.residualClasses : List (String × List String)     -- class, statements that did not fit
+    Shelx.Extracted.residualClasses : List (String × List String)     -- class, why it is not table shaped
 
-Recognised statements of an `__init__` (P = the name bound to the numeric list by `P, W = self._parse_line(...)`):
-    super(...).__init__(...) / self.shx = shx / docstring                      ignored
-    self.x = <literal>   |  self.x, self.y = <literal>, <literal>             default (before the parse call) or
-                                                                               constant slot (after it)
-    P, W = self._parse_line(spline[, intnums=<bool>])   W: `_`, a name, or self.<attr> (words attribute)
-    self.x, W = self._parse_line(...)                    whole list -> slot(always, p[0:])
-    if len(P) > g: / >= g+1:   body of   self.x = P[j] | conv(P[j]) | P[a:b] | <literal> | derived (no P inside)
-                                optional `else: raise ...`
-    self.x = P[j] | conv(P[j]) | P[a:b]                  unguarded read
-    validation:  if <test>: raise/print only;  self._paircheck();  (counted in `checks`, not modelled)
-Everything else makes the class *residual* (listed with the offending statements; modelled by hand or left out).
-Equivalent spellings accepted: any name for P, `len(P) >= k`, `k < len(P)`, `int()/float()` wrappers, tuple
-assignment of literals, `self.x: T = v` annotated assignment.
+The tables are read SEMANTICALLY, not syntactically: `extract/probe_c16.py` (a subprocess that imports the package from
+the tree under test) constructs every card class on symbolic numbers for every number of parameters n = 0 … 16,
+without and with a DEFS object, and reports per (class, n, DEFS?) what each attribute of the object holds:
+
+    unset | const v | idx j (p[j], or int(p[j])) | slice a e (p[a:e]) | defs f m (shx.defs.f * m) | derived | structured
+
+and whether the constructor raised (IndexError: an unguarded read; anything else: a validation the model does not
+mirror, the half-built object is what is reported). Each reading is confirmed on five sample vectors.
+Whatever the spelling of the source — comparison operators either way round, `if p:`, early returns, tuple assignment,
+`setattr` in a loop over a name table, helper methods / module functions / lambdas in a module-level dict, class
+attributes, properties, `try/except IndexError` — only what arrives in the object counts.
+
+This module turns the observations into the statement list the Lean model executes (`fill` in ShelxModel/C16.lean):
+for each attribute the sequence of forms over n is cut into maximal runs of one source form; a run that starts at
+n = g + 1 becomes `⟨attr, .gt g, src, conv⟩` (the first run: a default, or an `.always` slot); the DEFS value that
+shows where no positional slot passes becomes a `DefsRule`; every interval of n on which the constructor raises
+IndexError becomes an unguarded read. The synthesised table is then EXECUTED here (a Python copy of `fill`) on every
+probed point and must reproduce every observation, otherwise the class is not table shaped.
+
+Not table shaped (listed in `residualClasses`, left out of `slotTable`, so that `slots_match_syntax` fails for a keyword
+of `tableKws`): a public instance attribute that depends on the parameter VALUES, that holds a structure of parameters
+which is not a contiguous slice (`HFIX.params`, `SUMP.fvars`), or whose forms over n can not be written as guarded
+statements; IndexError for some values only. Silently left out of a table: attributes that are computed (`CELL.cosal`,
+`CELL.V`, objects), and properties / class attributes / `_private` attributes that can not be represented.
+Lost (reported, never guessed): the package does not import, the probe fails, a DEFS effect that does not have the
+shape default → DEFS value → explicit parameter.
 """
 from __future__ import annotations
 
-import ast
+import json
+import subprocess
+import sys
 from fractions import Fraction
 from pathlib import Path
 
 import extract
 
-CARDS = 'shelxfile/shelx/cards.py'
-SKIP = {'Residue', 'Restraint', 'Command', 'Residues', 'Restraints', 'FVAR', 'FVARs', 'SymmCards', 'SFACTable'}
+HERE = Path(__file__).resolve().parent
 
 
 class NoFit(Exception):
@@ -37,19 +51,10 @@ class NoFit(Exception):
 
 
 def rat(x) -> str:
-    fr = Fraction(str(x))
+    fr = x if isinstance(x, Fraction) else Fraction(str(x))
     if fr.denominator == 1:
         return f'({fr.numerator} : Rat)'
     return f'(({fr.numerator} : Rat) / {fr.denominator})'
-
-
-def lit(node):
-    """python literal node -> Lean `Val` text, or raise NoFit"""
-    try:
-        v = ast.literal_eval(node)
-    except Exception:
-        raise NoFit()
-    return val(v)
 
 
 def val(v) -> str:
@@ -66,271 +71,246 @@ def val(v) -> str:
     raise NoFit()
 
 
-def self_attr(node):
-    if isinstance(node, ast.Attribute) and isinstance(node.value, ast.Name) and node.value.id == 'self':
-        return node.attr
-    return None
+# ------------------------------------------------------------------------------------------------
+# from observations to statements
 
-
-def mentions(node, name) -> bool:
-    return any(isinstance(n, ast.Name) and n.id == name for n in ast.walk(node))
-
-
-def is_parse_call(node):
-    return (isinstance(node, ast.Call) and isinstance(node.func, ast.Attribute) and node.func.attr == '_parse_line'
-            and isinstance(node.func.value, ast.Name) and node.func.value.id == 'self')
-
-
-def nat(node):
-    if isinstance(node, ast.Constant) and isinstance(node.value, int) and not isinstance(node.value, bool) and node.value >= 0:
-        return node.value
-    return None
-
-
-def read_src(node, P):
-    """P[j] / conv(P[j]) / P[a:b]  ->  (src text, conv text) or None"""
-    conv = '.id'
-    if isinstance(node, ast.Call) and isinstance(node.func, ast.Name) and node.func.id in ('int', 'float') \
-            and len(node.args) == 1 and not node.keywords:
-        conv = '.int' if node.func.id == 'int' else '.id'
-        node = node.args[0]
-    if isinstance(node, ast.Subscript) and isinstance(node.value, ast.Name) and node.value.id == P:
-        sl = node.slice
-        if isinstance(sl, ast.Slice):
-            if sl.step is not None:
+def fit(pts):
+    """pts: [(n, form)] of one run -> source  ('unset',) | ('const', v) | ('idx', j, conv) | ('slice', a, b|None) | ('defs', f, m)
+       that reproduces every point, or None"""
+    forms = [f for _, f in pts]
+    k0 = forms[0][0]
+    listish = all(f[0] == 'slice' or (f[0] == 'const' and f[1] == []) for f in forms)
+    if listish:
+        full = [(n, f) for n, f in pts if f[0] == 'slice']
+        if not full:
+            return ('const', [])
+        a = full[0][1][1]
+        if any(f[1] != a for _, f in full):
+            return None
+        b = None if all(f[2] == n for n, f in full) else max(f[2] for _, f in full)
+        for n, f in pts:
+            end = n if b is None else min(b, n)
+            if f[0] == 'slice':
+                if not (n > a and f[2] == end):
+                    return None
+            elif end > a:
                 return None
-            a = 0 if sl.lower is None else nat(sl.lower)
-            b = None if sl.upper is None else nat(sl.upper)
-            if a is None or (sl.upper is not None and b is None):
-                return None
-            return f'.slice {a} ' + ('none' if b is None else f'(some {b})'), conv
-        j = nat(sl)
-        if j is not None:
-            return f'.idx {j}', conv
-    return None
-
-
-def len_guard(test, P):
-    """len(P) > g | len(P) >= g+1 | g < len(P)  -> g"""
-    if not (isinstance(test, ast.Compare) and len(test.ops) == 1 and len(test.comparators) == 1):
+        return ('slice', a, b)
+    if any(f != forms[0] for f in forms):
         return None
-    l, op, r = test.left, test.ops[0], test.comparators[0]
-
-    def is_len(n):
-        return (isinstance(n, ast.Call) and isinstance(n.func, ast.Name) and n.func.id == 'len' and len(n.args) == 1
-                and isinstance(n.args[0], ast.Name) and n.args[0].id == P)
-    if is_len(l) and nat(r) is not None:
-        if isinstance(op, ast.Gt):
-            return nat(r)
-        if isinstance(op, ast.GtE) and nat(r) >= 1:
-            return nat(r) - 1
-    if is_len(r) and nat(l) is not None:
-        if isinstance(op, ast.Lt):
-            return nat(l)
-        if isinstance(op, ast.LtE) and nat(l) >= 1:
-            return nat(l) - 1
+    f = forms[0]
+    if k0 == 'unset':
+        return ('unset',)
+    if k0 == 'const':
+        return ('const', f[1])
+    if k0 == 'idx':
+        return ('idx', f[1], f[2])
+    if k0 == 'defs':
+        return ('defs', f[1], Fraction(f[2], f[3]))
     return None
 
 
-def only_raise_or_print(stmts) -> bool:
-    for s in stmts:
-        if isinstance(s, ast.Raise):
+def runs_of(seq):
+    """seq[n] = form or None (nothing known) -> [(first n, source)]; raises NoFit"""
+    runs, cur = [], []
+    for n, f in enumerate(seq):
+        if f is None:
             continue
-        if isinstance(s, ast.Expr) and isinstance(s.value, ast.Call) and isinstance(s.value.func, ast.Name) and s.value.func.id == 'print':
+        if cur and fit(cur + [(n, f)]) is not None:
+            cur.append((n, f))
             continue
-        if isinstance(s, ast.If) and only_raise_or_print(s.body) and only_raise_or_print(s.orelse):
+        if cur:
+            runs.append((cur[0][0], fit(cur)))
+        cur = [(n, f)]
+        if fit(cur) is None:
+            raise NoFit()
+    if cur:
+        runs.append((cur[0][0], fit(cur)))
+    return runs
+
+
+def src_text(src):
+    if src[0] == 'const':
+        return f'.const ({val(src[1])})', '.id'
+    if src[0] == 'idx':
+        return f'.idx {src[1]}', '.int' if src[2] == 'int' else '.id'
+    if src[0] == 'slice':
+        return f'.slice {src[1]} ' + ('none' if src[2] is None else f'(some {src[2]})'), '.id'
+    raise NoFit()
+
+
+def intervals(ns):
+    out = []
+    for n in sorted(ns):
+        if out and out[-1][1] == n - 1:
+            out[-1][1] = n
+        else:
+            out.append([n, n])
+    return out
+
+
+def synthesise(c, nmax):
+    """probe record of one class -> dict(info for render) ; raises NoFit(reason) when the class is not table shaped"""
+    if c.get('unreadable'):
+        raise NoFit(c['unreadable'])
+    P0, P1 = c['points']
+    restraint = c['base'] == 'Restraint'
+    kinds = c['attr_kind']
+    lenient = {a for a in c['order'] if kinds.get(a) != 'instance' or a.startswith('_')}
+    reasons, dropped = [], []
+    idx0 = {n for n, p in enumerate(P0) if p['kind'] == 'index'}
+    idx1 = {n for n, p in enumerate(P1) if p['kind'] == 'index'}
+    if idx0 != idx1:
+        raise NoFit(f'IndexError for n in {sorted(idx0)} without DEFS, {sorted(idx1)} after DEFS')
+
+    def seq(P, a):
+        out = []
+        for p in P:
+            if p['kind'] == 'index':
+                out.append(None)
+            else:
+                out.append(p['forms'].get(a, ['unset']))
+        return out
+
+    defaults, slots, rules, kept = [], [], [], []
+    for a in c['order']:
+        s0, s1 = seq(P0, a), seq(P1, a)
+        allf = [f for f in s0 + s1 if f is not None]
+        if any(f[0] == 'derived' for f in allf) or a in c.get('computed', []):
+            dropped.append(a)
             continue
-        return False
-    return True
-
-
-def assigned_pairs(stmt):
-    """Assign/AnnAssign -> list of (target node, value node); tuple assignment of equal length is unpacked"""
-    if isinstance(stmt, ast.AnnAssign) and stmt.value is not None:
-        return [(stmt.target, stmt.value)]
-    if isinstance(stmt, ast.Assign) and len(stmt.targets) == 1:
-        t, v = stmt.targets[0], stmt.value
-        if isinstance(t, ast.Tuple) and isinstance(v, ast.Tuple) and len(t.elts) == len(v.elts):
-            return list(zip(t.elts, v.elts))
-        return [(t, v)]
-    return None
-
-
-def read_init(cls: ast.ClassDef):
-    init = next((n for n in cls.body if isinstance(n, ast.FunctionDef) and n.name == '__init__'), None)
-    base = cls.bases[0].id if cls.bases and isinstance(cls.bases[0], ast.Name) else ''
-    info = dict(name=cls.name, base=base, intnums=False, words=None, defaults=[], slots=[], checks=0, residual=[], derived=0)
-    if init is None:
-        return info
-    P = None
-    argnames = {a.arg for a in init.args.args}
-    for st in init.body:
+        why = None
+        if a in c.get('inconsistent', []):
+            why = next((x for x in c['notes'] if x.startswith(a + ':')), f'{a}: depends on the parameter values')
+        elif any(f[0] == 'structured' for f in allf):
+            why = f'{a}: holds a structure of parameters that is not a contiguous slice (' + \
+                  next(f[1] for f in allf if f[0] == 'structured') + ')'
         try:
-            fit_stmt(st, info, argnames, lambda: P)
-            if '_P' in info:
-                P = info.pop('_P')
-        except NoFit:
-            info['residual'].append(ast.unparse(st).split('\n')[0][:100])
+            if why:
+                raise NoFit(why)
+            # a validation raise leaves a half-built object: an attribute that is not there yet says nothing
+            for P, s in ((P0, s0), (P1, s1)):
+                seen = False
+                for n, p in enumerate(P):
+                    if s[n] is None:
+                        continue
+                    if s[n][0] == 'unset' and p['kind'] == 'raise' and seen:
+                        s[n] = None
+                    elif s[n][0] != 'unset':
+                        seen = True
+            strs = {f[1] for f in allf if f[0] == 'const' and isinstance(f[1], str)}
+            if len(strs) > 1:
+                raise NoFit(f'{a}: text that changes with the parameters')
+            try:
+                r0 = runs_of(s0)
+            except NoFit:
+                raise NoFit(f'{a}: its forms over n can not be written as guarded statements')
+            if any(src == ('unset',) for _, src in r0[1:]):
+                raise NoFit(f'{a}: is set for fewer parameters and missing for more')
+            # the DEFS effect: where (and only where) no positional statement passes, the DEFS value replaces the default
+            rule = None
+            first_end = r0[1][0] if len(r0) > 1 else nmax + 1
+            default_run = bool(r0) and r0[0][1][0] in ('unset', 'const')
+            for n in range(nmax + 1):
+                if s0[n] is None or s1[n] is None:
+                    continue
+                if s0[n] == s1[n]:
+                    if rule is not None and default_run and n < first_end and not (s0[n][0] == 'unset' and P1[n]['kind'] == 'raise'):
+                        raise NoFit(f'{a}: the DEFS value replaces the default for some n only')
+                    continue
+                if s1[n][0] == 'defs' and default_run and n < first_end and restraint:
+                    r = (s1[n][1], Fraction(s1[n][2], s1[n][3]))
+                    if rule is None:
+                        if any(s0[m] is not None and s1[m] is not None and s0[m] == s1[m] and s0[m][0] != 'unset' for m in range(n)):
+                            raise NoFit(f'{a}: the DEFS value replaces the default for some n only')
+                        rule = r
+                    elif rule != r:
+                        raise NoFit(f'{a}: different DEFS values for different n')
+                    continue
+                raise NoFit(f'{a}: n={n}: {s0[n]} without DEFS, {s1[n]} after DEFS')
+            for f in allf:
+                if f[0] == 'const':
+                    val(f[1])
+        except NoFit as e:
+            if a in lenient:
+                dropped.append(a)
+                continue
+            reasons.append(str(e))
+            continue
+        if rule is not None:
+            if rule[0] not in FIELDS:
+                reasons.append(f'{a}: DEFS field {rule[0]}')
+                continue
+            rules.append((c['name'], a, rule[0], rule[1]))
+        kept.append((a, s0, s1))
+        for i, (n0, src) in enumerate(r0):
+            if src == ('unset',):
+                continue
+            if i == 0 and src[0] == 'const':
+                defaults.append((a, src))
+                continue
+            slots.append((a, n0 - 1, src))          # guard: -1 = always, g = `len(p) > g`
+    if reasons:
+        raise NoFit('; '.join(reasons))
+    for lo, hi in intervals(idx0):
+        slots.append(('IndexError', lo - 1, ('idx', hi, 'id')))
+    # the synthesised statements, executed, must give back every observation
+    for hd, P in ((False, P0), (True, P1)):
+        for n, p in enumerate(P):
+            got = simulate(defaults, rules if restraint else [], slots, n, hd)
+            if (got == 'IndexError') != (p['kind'] == 'index'):
+                raise NoFit(f'internal: n={n}: the table raises {got == "IndexError"}, the constructor {p["kind"]}')
+            if got == 'IndexError':
+                continue
+            for a, s0, s1 in kept:
+                want = (s1 if hd else s0)[n]
+                if want is not None and not same_form(got.get(a, ['unset']), want):
+                    raise NoFit(f'internal: {a}, n={n}{" after DEFS" if hd else ""}: the table gives {got.get(a, ["unset"])}, '
+                                f'the constructor {want}')
+    excs = sorted({p['exc'] for P in (P0, P1) for p in P if p['kind'] == 'raise'})
+    info = dict(name=c['name'], base=c['base'], intnums=bool(c['intnums']), words=c['words'],
+                defaults=[(a, val(src[1])) for a, src in defaults],
+                slots=[(a, '.always' if g < 0 else f'.gt {g}') + src_text(src) for a, g, src in slots],
+                checks=len(excs), derived=dropped, rules=rules)
     return info
 
 
-def fit_stmt(st, info, argnames, getP):
-    P = getP()
-    # docstring / super().__init__ ------------------------------------------------------------------
-    if isinstance(st, ast.Expr):
-        v = st.value
-        if isinstance(v, ast.Constant) and isinstance(v.value, str):
-            return
-        if isinstance(v, ast.Call) and isinstance(v.func, ast.Attribute):
-            if v.func.attr == '__init__':
-                return
-            if v.func.attr == '_paircheck':
-                info['checks'] += 1
-                return
-        raise NoFit()
-    # validation ----------------------------------------------------------------------------------------
-    if isinstance(st, ast.If) and len_guard(st.test, P or '') is None:
-        if only_raise_or_print(st.body) and only_raise_or_print(st.orelse):
-            info['checks'] += 1
-            return
-        raise NoFit()
-    # guarded block -------------------------------------------------------------------------------------
-    if isinstance(st, ast.If):
-        g = len_guard(st.test, P)
-        if st.orelse and not only_raise_or_print(st.orelse):
-            raise NoFit()
-        if st.orelse:
-            info['checks'] += 1
-        new = []
-        for b in st.body:
-            pairs = assigned_pairs(b)
-            if pairs is None:
-                raise NoFit()
-            for t, v in pairs:
-                a = self_attr(t)
-                if a is None:
-                    raise NoFit()
-                rs = read_src(v, P)
-                if rs is not None:
-                    new.append((a, f'.gt {g}', rs[0], rs[1]))
-                elif not mentions(v, P):
-                    try:
-                        new.append((a, f'.gt {g}', f'.const ({lit(v)})', '.id'))
-                    except NoFit:
-                        info['derived'] += 1      # computed from other attributes (CELL: cosines, volume …)
-                else:
-                    raise NoFit()
-        info['slots'] += new
-        return
-    pairs = assigned_pairs(st)
-    if pairs is None:
-        raise NoFit()
-    # the parse call ------------------------------------------------------------------------------------
-    if len(pairs) == 1 and is_parse_call(pairs[0][1]):
-        t, call = pairs[0]
-        if not (isinstance(t, ast.Tuple) and len(t.elts) == 2) or P is not None:
-            raise NoFit()
-        for kw in call.keywords:
-            if kw.arg == 'intnums' and isinstance(kw.value, ast.Constant):
-                info['intnums'] = bool(kw.value.value)
-            else:
-                raise NoFit()
-        if len(call.args) != 1 or not (isinstance(call.args[0], ast.Name) and call.args[0].id in argnames):
-            raise NoFit()
-        pn, wn = t.elts
-        if isinstance(wn, ast.Name):
-            pass
-        elif self_attr(wn):
-            info['words'] = self_attr(wn)
-        else:
-            raise NoFit()
-        if isinstance(pn, ast.Name):
-            info['_P'] = pn.id
-        elif self_attr(pn):
-            info['_P'] = '\0whole'
-            info['slots'].append((self_attr(pn), '.always', '.slice 0 none', '.id'))
-        else:
-            raise NoFit()
-        return
-    # plain assignments ---------------------------------------------------------------------------------
-    new_d, new_s = [], []
-    for t, v in pairs:
-        a = self_attr(t)
-        if a is None:
-            raise NoFit()
-        if isinstance(v, ast.Name) and v.id in argnames:
-            continue                                  # self.shx = shx
-        rs = read_src(v, P) if P else None
-        if rs is not None:
-            new_s.append((a, '.always', rs[0], rs[1]))
+def simulate(defaults, rules, slots, n, hd):
+    """Python copy of `fill` (ShelxModel/C16.lean) on the form level: -> {attr: form} or 'IndexError'"""
+    store = {}
+    for a, src in defaults:
+        store[a] = ['const', src[1]]
+    if hd:
+        for _, a, f, m in rules:
+            store[a] = ['defs', f, m.numerator, m.denominator]
+    for a, g, src in slots:
+        if not n > g:
             continue
-        if P and mentions(v, P):
-            raise NoFit()
-        if isinstance(v, ast.JoinedStr) or (isinstance(v, ast.Call) and not mentions(v, P or '\0')):
-            # `self._textline = ' '.join(spline)`: bookkeeping of the raw text, not a parameter
-            if a.startswith('_'):
-                continue
-            raise NoFit()
-        lv = lit(v)
-        if P is None:
-            new_d.append((a, lv))
+        if src[0] == 'idx':
+            if src[1] >= n:
+                return 'IndexError'
+            store[a] = ['idx', src[1], src[2]]
+        elif src[0] == 'slice':
+            end = n if src[2] is None else min(src[2], n)
+            store[a] = ['slice', src[1], end] if end > src[1] else ['const', []]
         else:
-            new_s.append((a, '.always', f'.const ({lv})', '.id'))
-    info['defaults'] += new_d
-    info['slots'] += new_s
+            store[a] = ['const', src[1]]
+    return store
 
 
-def read_defs(tree):
-    """Restraint._set_defs_values ->  [(name, attr, field, mult)] ; raises NoFit when the shape is lost"""
-    fn = extract.find(tree, 'Restraint._set_defs_values')
-    if fn is None:
-        raise NoFit()
-    body = [s for s in fn.body if not (isinstance(s, ast.Expr) and isinstance(s.value, ast.Constant))]
-    if len(body) != 1 or not isinstance(body[0], ast.If):
-        raise NoFit()
-    top = body[0]
-    t = top.test
-    if not (isinstance(t, ast.Attribute) and t.attr == 'defs'):
-        raise NoFit()
-    rules = []
+def same_form(a, b):
+    if a[0] != b[0]:
+        return False
+    if a[0] == 'defs':
+        return a[1] == b[1] and Fraction(a[2], a[3]) == Fraction(b[2], b[3])
+    if a[0] == 'const':
+        return type(a[1]) is type(b[1]) and a[1] == b[1] or \
+            (isinstance(a[1], (int, float)) and isinstance(b[1], (int, float)) and not isinstance(a[1], bool)
+             and not isinstance(b[1], bool) and a[1] == b[1])
+    return list(a) == list(b)
 
-    def defs_field(n):
-        if isinstance(n, ast.Attribute) and isinstance(n.value, ast.Attribute) and n.value.attr == 'defs':
-            return n.attr
-        return None
 
-    def walk(stmts):
-        for s in stmts:
-            if not isinstance(s, ast.If):
-                raise NoFit()
-            c = s.test
-            if not (isinstance(c, ast.Compare) and len(c.ops) == 1 and isinstance(c.ops[0], ast.Eq)
-                    and self_attr(c.left) == 'name' and isinstance(c.comparators[0], ast.Constant)):
-                raise NoFit()
-            nm = c.comparators[0].value
-            for b in s.body:
-                pairs = assigned_pairs(b)
-                if pairs is None or len(pairs) != 1:
-                    raise NoFit()
-                tgt, v = pairs[0]
-                a = self_attr(tgt)
-                if a is None:
-                    raise NoFit()
-                mult = 1
-                f = defs_field(v)
-                if f is None and isinstance(v, ast.BinOp) and isinstance(v.op, ast.Mult):
-                    if defs_field(v.left) and isinstance(v.right, ast.Constant):
-                        f, mult = defs_field(v.left), v.right.value
-                    elif defs_field(v.right) and isinstance(v.left, ast.Constant):
-                        f, mult = defs_field(v.right), v.left.value
-                if f is None:
-                    raise NoFit()
-                rules.append((nm, a, f, mult))
-            walk(s.orelse)          # elif chains
-    walk(top.body)
-    if top.orelse:
-        raise NoFit()
-    return rules
+FIELDS = ['sd', 'sf', 'su', 'ss', 'maxsof']
 
 
 def render(classes, rules, residual) -> str:
@@ -359,30 +339,43 @@ def render(classes, rules, residual) -> str:
     return '\n'.join(L) + '\n'
 
 
+def probe(repo: Path) -> dict:
+    p = subprocess.run([sys.executable, str(HERE / 'probe_c16.py'), '--repo', str(repo)],
+                       stdout=subprocess.PIPE, stderr=subprocess.PIPE, text=True, timeout=300,
+                       env={'PATH': '/usr/bin:/bin', 'PYTHONDONTWRITEBYTECODE': '1', 'PYTHONHASHSEED': '0'})
+    if p.returncode != 0:
+        raise RuntimeError(f'probe_c16.py failed: {p.stderr[-400:]}')
+    try:
+        return json.loads(p.stdout[p.stdout.index('{'):])
+    except ValueError:
+        raise RuntimeError(f'probe_c16.py printed no result: {p.stdout[-200:]} {p.stderr[-200:]}')
+
+
 @extract.extractor
 def c16_slots(repo: Path, out: Path):
     lost = []
-    tree = extract.parse(repo, CARDS)
-    classes, residual = [], []
-    for n in tree.body:
-        if isinstance(n, ast.ClassDef) and n.name not in SKIP:
-            info = read_init(n)
-            if info['residual']:
-                residual.append((info['name'], info['residual']))
-            else:
-                classes.append(info)
-    try:
-        rules = read_defs(tree)
-    except NoFit:
-        rules = []
-        lost.append(dict(props=['C16'], what='Restraint._set_defs_values no longer has the shape '
-                                            '`if self.shx.defs: if self.name == K: self.a = self.shx.defs.f [* k]`'))
+    r = probe(Path(repo).resolve())
+    for what in r.get('lost', []):
+        lost.append(dict(props=['C16'], what=what))
+    nmax = r.get('nmax', 16)
+    classes, residual, rules, notes = [], [], [], {}
+    for c in r.get('classes', []):
+        try:
+            info = synthesise(c, nmax)
+        except NoFit as e:
+            residual.append((c['name'], [x[:200] for x in str(e).split('; ')]))
+            continue
+        classes.append(info)
+        rules += info['rules']
+        if c.get('notes'):
+            notes[c['name']] = c['notes']
+    if not r.get('classes') and not lost:
+        lost.append(dict(props=['C16'], what='no card class could be probed'))
     extract.write_if_changed(out / 'C16Slots.lean', render(classes, rules, residual))
-    # machine-readable copy for the harness (which classes are table shaped, which residual)
-    import json
+    # machine-readable copy (diagnostics: which classes are table shaped, which not and why, what was left out)
     extract.write_if_changed(out / 'c16_slots.json', json.dumps(dict(
         table=[c['name'] for c in classes], residual={n: r for n, r in residual},
-        derived={c['name']: c['derived'] for c in classes if c['derived']}), indent=1, sort_keys=True) + '\n')
+        derived={c['name']: c['derived'] for c in classes if c['derived']}, notes=notes), indent=1, sort_keys=True) + '\n')
     return lost
 
 
